@@ -126,6 +126,7 @@ class C12Oracle(worldprop.Oracle):
     def before(self, idx, op):
         self.pre = [observable_doc(d) for d in self.im.docs]
         self.ids = [id(d) for d in self.im.docs]
+        self.pre_text = [self.text_of(d) for d in self.im.docs]
         if not hasattr(self, "alias_ops"):
             self.alias_ops, self.alias_shapes, self.alias_idx, self.alias_dead = [], [], [], False
         self.pre_counts = {(i, s): len(c._records) for i, d in enumerate(self.im.docs)
@@ -177,12 +178,28 @@ class C12Oracle(worldprop.Oracle):
                           call=a, implementation=want, model=norm(got))
                 return
 
+    @staticmethod
+    def text_of(d):
+        """the document as printed (prefixes as stored): values that are shared by reference between documents (Literal
+        objects, names) are immutable by contract — a call on another document that rewrites one in place shows here"""
+        try:
+            return d.get_provn()
+        except Exception as e:
+            return "raised " + type(e).__name__
+
     def after(self, idx, op, ob):
         self.alias_after(idx, op, ob)
         try:
             t = target_doc(op)
         except Exception:
             t = None
+        for i, txt in enumerate(self.pre_text):
+            d = self.im.docs[i]
+            if i == t or (t is not None and t < len(self.im.docs) and d is self.im.docs[t]):
+                continue
+            if self.text_of(d) != txt:
+                self.fail(idx, "a call changed how a document other than its target prints (a value object shared between "
+                               "documents was rewritten in place)", call=op[0], changed_doc=i, target=t)
         for i, obs in enumerate(self.pre):
             if i == t:
                 continue
@@ -373,6 +390,29 @@ def fixed_programs():
               ("AddBundleDoc", lambda: [["NewDoc"], ["AddNs", ["d", "1"], "ex", "http://example.org/"],
                                         ["AddBundleDoc", "1", "0", ["S", "ex:attached"], ["ex"]]]),
               ("AddRecord", lambda: [["NewDoc"], ["AddRecord", ["d", "1"], ["r", ["d", "0"], "0"]]])]
+    # values that stay Literal objects (a user-defined datatype) travel by reference from the source's records into every
+    # derived record: after each deriving call the derived side gets a bundle that binds the datatype's prefix to another
+    # URI and re-creates a record carrying the literal there (its datatype is re-homed under a new prefix) — the source,
+    # printed, must read exactly as before
+    U1, U2 = "http://example.org/one/", "http://example.org/two/"
+    for name, mk in derivs:
+        if name in ("DocFromRecords-bundle", "AddRecord"):
+            continue
+        p = [["NewDoc"], ["AddNs", ["d", "0"], "ex", U1],
+             ["NewRecord", ["d", "0"], "Entity", ["S", "ex:e"], [[["S", "ex:p"], ["lit", "v", ["qn", "ex", U1, "t"], "none"]], [["S", "ex:q"], ["int", "1"]]]],
+             ["NewRecord", ["d", "0"], "Activity", ["S", "ex:a"], []]]
+        if name != "AddBundleDoc":
+            p += [["NewBundle", "0", ["S", "ex:b0"]],
+                  ["NewRecord", ["b", "0", "0"], "Entity", ["S", "ex:e"], [[["S", "ex:p"], ["lit", "w", ["qn", "ex", U1, "t"], "none"]]]]]
+        p += [o if o != ["AddNs", ["d", "1"], "ex", "http://example.org/"] else ["AddNs", ["d", "1"], "ex", U1] for o in mk()]
+        p += [["ExportProvn", "0"], ["ExportJson", "0"],
+              ["NewBundle", "1", ["Q", "zz", "http://zz.test/", "late"]]]
+        # the new bundle is the last one of document 1
+        last = {"Unified": "1", "Flattened": "0", "DocFromRecords": "0", "Update": "1", "AddBundleDoc": "1"}[name]
+        p += [["AddNs", ["b", "1", last], "ex", U2],
+              ["AddRecord", ["b", "1", last], ["r", (["b", "1", "0"] if name == "AddBundleDoc" else ["d", "1"]), "0"]],
+              ["ExportProvn", "0"], ["ExportJson", "0"], ["ExportProvn", "1"]]
+        out.append(p)
     # a bundle whose names resolve through its document (it declares nothing itself) and holds records to be merged, a
     # document whose default namespace was adopted from a name: deriving must leave the declarations of both as they were
     EXU = "http://example.org/"
